@@ -299,6 +299,34 @@ func c09Selector(m string, i int) string {
 	return m + "{" + c09Matcher(i/c09NumMatchers) + "," + c09Matcher(i%c09NumMatchers) + "}"
 }
 
+// c09Related derives a selector from sel (name{m1,m2}) by dropping or adding matchers.
+func c09Related(r *rand.Rand, sel, metric string) string {
+	var ms []string
+	if i := strings.Index(sel, "{"); i >= 0 {
+		ms = strings.Split(strings.TrimSuffix(sel[i+1:], "}"), ",")
+	}
+	switch r.Intn(4) {
+	case 0: // subset
+		if len(ms) > 0 {
+			k := r.Intn(len(ms))
+			ms = append(append([]string{}, ms[:k]...), ms[k+1:]...)
+		}
+	case 1: // bare metric
+		ms = nil
+	case 2: // superset, appended
+		ms = append(ms, c09Matcher(r.Intn(c09NumMatchers)))
+	case 3: // superset, prepended (descending label names occur)
+		ms = append([]string{c09Matcher(r.Intn(c09NumMatchers))}, ms...)
+		if r.Intn(2) == 0 {
+			ms = append([]string{c09Matcher(r.Intn(c09NumMatchers))}, ms...)
+		}
+	}
+	if len(ms) == 0 {
+		return metric
+	}
+	return metric + "{" + strings.Join(ms, ",") + "}"
+}
+
 var c09Positions = []string{
 	"%s + %s", "%s - on (a) %s", "%s * ignoring (b) %s", "%s / on (a) group_left %s", "%s + on (b) group_right %s",
 	"%s == %s", "%s > bool %s", "sum(%s) + sum(%s)", "sum by (a) (%s) / sum by (a) (%s)", "abs(%s) + %s",
@@ -368,6 +396,11 @@ func GenOptim(t *testing.T, r *rand.Rand, prop, tier string, _ *atomic.Int64) *C
 				si = r.Intn(space)
 			}
 			args[i] = c09Selector(m, si)
+			if i > 0 && tier != "thorough" && r.Intn(5) < 3 {
+				// related to the first selector, so that selects actually merge: the same
+				// matchers plus/minus one, in either order
+				args[i] = c09Related(r, args[0].(string), m)
+			}
 		}
 		q = fmt.Sprintf(pos, args...)
 		data = c09Data(r, w)
